@@ -48,6 +48,9 @@ def run_batches(prop, verdict, batches, classify=None):
         st["trans"] += t.generated
         st["queries"] += len(rows)
         for r in rows:
+            st["schedules"] = st.get("schedules", 0) + r.get("nsched", 0)
+            st["sched_exhausted"] = st.get("sched_exhausted", 0) + (1 if r.get("schedexhausted") else 0)
+            st["sched_queries"] = st.get("sched_queries", 0) + (1 if r.get("nsched", 0) else 0)
             st["runs"] += len(r["runs"]) + (1 if r["pruned"]["outcome"] != "none" else 0)
             st["texts"].add((b["world"], r["text"], json.dumps(r["fail"], sort_keys=True)))
             for x in r["runs"]:
@@ -83,6 +86,10 @@ def evidence(prop, tier, seed, st, verdict, rule, assumptions, extra=None):
         "nonconforming_records": st["nonconforming"],
         "exhaustive": False,
     }
+    if st.get("schedules"):
+        cov["schedules_enumerated"] = st["schedules"]
+        cov["queries_with_all_schedules_enumerated"] = st.get("sched_exhausted", 0)
+        cov["queries_in_schedule_enumeration"] = st.get("sched_queries", 0)
     if extra:
         cov.update(extra)
     vlib.write_evidence(prop, tier, seed, "model_checking", cov, assumptions, violations=len(verdict.violations))
